@@ -82,9 +82,9 @@ MANIFEST = dict(
                 "C04: PfileClose => helper reads EOF => restore is C04's theorem. Decided by correspondence/oracle "
                 "only (no theorem): the host-list and auto-nets parsing, Mux.fill/callback and runonce internals, "
                 "the real-descriptor EOF, the 2 s scenario-time bound for rules outliving ssh, corrupted tunnel "
-                "bytes releasing the helper. C12_bad_handshake_partial: the link between the monadic start-up "
-                "reads and C07's Handshake.handshake (NUL-skipping structure) is not proved; what is proved is that "
-                "the accepted string is the last 12 bytes read and equals the literal. Observation outside the "
+                "bytes releasing the helper. The monadic start-up reads are proved to compute C07's "
+                "Handshake.handshake on the same segments (Lemmas/ClientMainLink.lean), so C12_bad_handshake "
+                "(Props/C12_Handshake.lean) is stated on the bytes the server sent. Observation outside the "
                 "statement (not judged): tunnel EOF with ssh still reported alive does not end the loop (witness "
                 "C12_tunnel_eof_loop_continues)."),
     technique="Lean 4 proof (Hoare-style invariants over an exception/trace monad, finally rule, trace monitor "
